@@ -1,6 +1,6 @@
 #!/bin/sh
-# tools/saveseeds.sh <seed-root> : run seedtest on every seed under <seed-root>/<n>/ and store the confirmed ones
-# under /verif/seeded/<property>-<n>/ with the detection record appended to meta.json.
+# tools/saveseeds.sh <seed-root> : run seedtest on every seed under <seed-root>/<n>/ and store it under
+# /verif/seeded/<property>-<n>/ (patch.diff, demo.py, meta.json with the detection record appended).
 ROOT="$1"
 for d in "$ROOT"/[0-9]*; do
   [ -f "$d/patch.diff" ] || continue
@@ -11,16 +11,19 @@ for d in "$ROOT"/[0-9]*; do
   DEST=/verif/seeded/$PID-$N
   mkdir -p "$DEST"
   cp "$d/patch.diff" "$d/demo.py" "$DEST/"
-  printf '%s\n' "$OUT" > /tmp/seedtest_out.txt
-  python3 - "$d/meta.json" "$DEST/meta.json" <<'PY'
+  TMPF=$(mktemp)
+  printf '%s\n' "$OUT" > "$TMPF"
+  python3 - "$d/meta.json" "$DEST/meta.json" "$TMPF" <<'PY'
 import json, sys
 m = json.load(open(sys.argv[1]))
-out = open('/tmp/seedtest_out.txt').read()
+out = open(sys.argv[3]).read()
 first = out.splitlines()[0] if out else ''
 m['confirmed'] = 'demo_clean=0 demo_patched=1' in first
-m['check_run'] = 'tools/seedtest.sh (git -C /repo apply patch.diff; ./check ' + m['property'] + '; git -C /repo checkout -- .)'
-m['check_result'] = first
-m['check_output'] = out.splitlines()[1:4]
+m['check_run'] = 'tools/seedtest.sh (patch applied to a scratch copy of /repo; ./check ' + m['property'] + ' --tier quick with PYVC_REPO pointing at it)'
+m['check_result'] = first.replace(sys.argv[1].rsplit('/', 1)[0], '<seed>')
+m['detected'] = 'check_exit=1' in first
+m['check_output'] = [l[:300] for l in out.splitlines()[1:4]]
 json.dump(m, open(sys.argv[2], 'w'), indent=1)
 PY
+  rm -f "$TMPF"
 done
